@@ -32,7 +32,13 @@ class DictAdapter(Adapter):
 
     @classmethod
     def items(cls, value, node):
-        if node is None or not isinstance(node, ast.Dict):
+        if (
+            node is None
+            or not isinstance(node, ast.Dict)
+            # the keys of the node can not be assigned to the keys of the value
+            # if the dict display contains the same key twice
+            or len(node.keys) != len(value)
+        ):
             return [Item(value=value, node=None) for value in value.values()]
 
         result = []
